@@ -48,6 +48,16 @@ def program_cases(tier, seed, pool):
                 slots.append(dict(kind='rel', mn=mn, addr=addr, w=1))
             elif k < .32:
                 slots.append(dict(kind='ldilabel', addr=addr, w=1))
+            elif k < .36 and pi % 3 == 0:
+                # a constant table between the instructions (words, double words, an even or odd number of bytes): the
+                # address of what follows — and `pc` there — moves on by the table's words
+                dt = rng.choice(['dw', 'dw', 'db', 'dd', 'dq'])
+                cnt = rng.randrange(1, 5)
+                vals = [rng.randrange(0, 256) for _ in range(cnt)]
+                width = {'db': 1, 'dw': 2, 'dd': 4, 'dq': 8}[dt]
+                raw = b''.join(v.to_bytes(width, 'little') for v in vals)
+                if len(raw) % 2: raw += b'\0'
+                slots.append(dict(kind='table', addr=addr, w=len(raw) // 2, text='.%s %s' % (dt, ', '.join(str(v) for v in vals)), raw=raw.hex()))
             elif k < .4:
                 form = rng.choice([('pc', 0), ('pc', 0), ('PC + 2', 2), ('pc - 1', -1), ('pc+1', 1)])
                 slots.append(dict(kind='capture', addr=addr, w=0, name='h%d' % len(slots), dirv='.set', text=form[0], value=addr + form[1]))
@@ -93,6 +103,9 @@ def program_cases(tier, seed, pool):
                 reqs.append(('ldi', a, ['r%d' % (16 + i % 16), 'v%d' % v], 1, 0))
             elif s_['kind'] == 'capture':
                 body.append((i, '%s %s = %s' % (s_['dirv'], s_['name'], s_['text'])))
+            elif s_['kind'] == 'table':
+                body.append((i, s_['text']))
+                reqs.append(('.table', a, [s_['raw']], s_['w'], 0))
             else:
                 c = s_['c']
                 body.append((i, c.src.split('\n')[-1]))
@@ -115,6 +128,7 @@ def run_programs(progs, model_ok):
     lines = []
     for i, (src, reqs, org) in enumerate(progs):
         for j, (mn, addr, toks, w, core) in enumerate(reqs):
+            if mn == '.table': continue
             lines.append('%d.%d ENC %d %s %d %s' % (i, j, core, mn, addr, ' '.join(toks)))
     spec, _, _ = vlib.run_lines(E.SPEC, lines, mode=None)
     dis, vio = [], []
@@ -124,6 +138,8 @@ def run_programs(progs, model_ok):
             dis.append({'source': src, 'impl': a[:200], 'model': model.get(str(i), 'MISSING')[:200]})
         exp = '0000' * org
         for j in range(len(reqs)):
+            if reqs[j][0] == '.table':
+                exp += reqs[j][2][0]; continue
             s = spec.get('%d.%d' % (i, j), 'NOSPEC')
             exp += E.expected_canon_code(s) if s.startswith('W') else '????'
         if not a.startswith('OK') or E.code_of(a) != exp:
